@@ -334,6 +334,13 @@ def r4_4(ctx, rc):
             continue
         raises = [x for x in ast.walk(m.node) if isinstance(x, ast.Raise)
                   and x.exc is not None]
+        # a helper that *returns* the exception object for its caller to
+        # raise chooses the class just the same
+        raises += [x for x in ast.walk(m.node) if isinstance(x, ast.Return)
+                   and isinstance(x.value, ast.Call) and isinstance(
+                       x.value.func, ast.Name) and x.value.func.id in (
+                           'IsADirectoryError', 'NotADirectoryError',
+                           'FileNotFoundError')]
         if not raises:
             continue
         sg = ctx.E.super(m, lambda g: False)
@@ -362,13 +369,14 @@ def r4_4(ctx, rc):
             return False
         for r in raises:
             from ..supergraph import short_exc
-            cls = short_exc(prog, m, r.exc)
+            cls = short_exc(prog, m, r.exc if isinstance(r, ast.Raise)
+                            else r.value)
             if cls not in ('IsADirectoryError', 'NotADirectoryError',
                            'FileNotFoundError'):
                 continue
             n += 1
             nodes = [x for x in sg.nodes if x.kind == 'out' and
-                     x.cn.kind == 'raise' and x.cn.ast is r]
+                     x.cn.kind in ('raise', 'return') and x.cn.ast is r]
             key = 'raise %s in %s (%s)' % (cls, m.qualname, 'handler'
                                            if nodes and nodes[0].cn.handler_of
                                            is not None else 'branch')
